@@ -363,7 +363,14 @@ impl Group for C07 {
                 _ if upfront != 0 => Dest { sid: upfront, spend: up_spend && rng.chance(3, 4), allow: allow.contains(&upfront) },
                 _ => { let s = pick(rng, &[1, 2, 3, 4]); Dest { sid: s, spend: true, allow: allow.contains(&s) } }
             } };
-            let cd = { let s = pick(rng, &[20, 21, 22, 10]); Dest { sid: s, spend: false, allow: allow.contains(&s) } };
+            let cd = { let s = pick(rng, &[20, 21, 22, 10, 11, 12]); Dest { sid: s, spend: false, allow: allow.contains(&s) } };
+            // the combination "holder destination unknown, counterparty destination known (allowlisted)": only the
+            // HOLDER's script has to be wallet-derivable or allowlisted, whatever the other one is
+            let (hd, cd) = if !allow.is_empty() && rng.chance(1, 8) {
+                let k = *rng.pick(&allow);
+                let u = pick(rng, &[20, 21, 22]);
+                (Dest { sid: u, spend: false, allow: allow.contains(&u) }, Dest { sid: k, spend: false, allow: true })
+            } else { (hd, cd) };
             // value of the side that does not pay the fee, at the ε edges of one of the two commitments
             let due = if outbound { if rng.chance(1, 2) { cur_bc } else { cur_bh } } else if rng.chance(1, 2) { cur_ah } else { cur_ac };
             // ... or of the version of the holder commitment that was validated first and then superseded
@@ -400,6 +407,8 @@ impl Group for C07 {
                 3 => cv = u64::MAX - hv.min(5),     // sum overflow candidates
                 // a small holder output (at / below / just above the dust limit, a few thousand sat)
                 4 => hv = pick(rng, &[1, 353, 354, 355, 1000, 3540, 3541]),
+                // the two values attributed to the wrong sides
+                5 => std::mem::swap(&mut hv, &mut cv),
                 _ => {}
             }
             let phase1 = rng.chance(1, 2);
